@@ -92,8 +92,8 @@ def render (lead : Bytes) (es : List Elem) : Bytes := lead ++ renderList es
 def allWs (w : Bytes) : Bool := w.all isWs
 
 /-- bytes an unquoted value may consist of as far as the C scanner is concerned
-    (a superset of RFC 7230 `tchar`) -/
-def tokByte (c : UInt8) : Bool := c ≠ 0 && c ≠ 32 && c ≠ 9 && c ≠ 44 && c ≠ 59
+    (a superset of RFC 7230 `tchar`; DQUOTE excluded since fix F35) -/
+def tokByte (c : UInt8) : Bool := c ≠ 34 && c ≠ 0 && c ≠ 32 && c ≠ 9 && c ≠ 44 && c ≠ 59
 
 /-- well-formedness of one rendered parameter (decidable): known name, OWS fields are SP/HT only,
     a token is non-empty (RFC 7230 `token = 1*tchar`), free of NUL SP HT , ; and does not start with a
